@@ -7,7 +7,8 @@ import itertools
 from ..decoders import *
 from ..decoders import _F
 from ..rt import *
-from ..tablecheck import check_tables, short
+from ..tablecheck import check_tables, short, resolve_table
+from spec import tables as reft
 from ..values import *
 from spec import responses as refr
 
@@ -56,6 +57,42 @@ def cond_holds(cond, found_conds):
     return False
 
 
+def cond_other_value(cond, found_conds, per_path=()):
+    """the decoder tests the very field of `cond` -- against another value, or other bits of that byte -- on some path
+    that reaches the site: a description of what it tests, else None"""
+    for conds in [found_conds] + list(per_path):
+        r = _cond_other_value(cond, conds)
+        if r:
+            return r
+    return None
+
+
+def _cond_other_value(cond, found_conds):
+    if cond[0] == "byte":
+        _, pos, value, msb, lsb = cond
+        for d, f in found_conds:
+            if d and d[0] == "bytes" and d[1] == pos and (msb is None or d[2] == msb) and (lsb is None or d[4] == lsb):
+                if f[0] == "eq" and f[1] != value:
+                    return "== %#x" % f[1]
+                if f[0] == "ne" and value in f[1]:
+                    return "!= %#x" % value
+        for d, f in found_conds:
+            if d and d[0] == "bytes" and d[1] == pos and d[1] == d[3] and msb is not None and (d[2], d[4]) != (msb, lsb) \
+                    and d[2] >= lsb and d[4] <= msb and f[0] == "eq":
+                return "is tested in bits %d..%d (== %#x)" % (d[2], d[4], f[1])
+    if cond[0] == "param":
+        _, name, op, v = cond
+        for d, f in found_conds:
+            if d == ("param", name):
+                if op == "eq" and f[0] == "eq" and f[1] != v:
+                    return "== %r" % (f[1],)
+                if op == "eq" and f[0] == "ne" and v in f[1]:
+                    return "!= %r" % (v,)
+                if op == "ne" and f == ("eq", v):
+                    return "== %r" % (v,)
+    return None
+
+
 def match(reference, found, site_conds, reads, allowed):
     """returns (missing facts under the best loop renaming, mapping)"""
     ref_loops = sorted(set(x for f in reference for x in loops_in(f)))
@@ -68,27 +105,35 @@ def match(reference, found, site_conds, reads, allowed):
         m = dict(zip(ref_loops, perm))
         missing = []
         for rf in reference:
-            f = remap(rf, m)
+            f = deep_simplify(remap(rf, m))
             if f[0] == "site":
                 key = ("site", f[1], f[2])
                 if key not in found:
-                    missing.append((rf, "the table is not applied at that position"))
+                    elsewhere = sorted(repr(x[2]) for x in found if x[0] == "site" and x[1] == f[1])
+                    missing.append((rf, "the table is not applied at that position" + ((" (it is applied at %s)" % "; ".join(elsewhere[:3])) if elsewhere else ""),
+                                    "contradicted" if elsewhere else "absent"))
                 else:
                     for c in f[3]:
                         if not cond_holds(c, site_conds.get(key, ())):
-                            missing.append((rf, "the table is applied there without the dispatch condition %r" % (c,)))
+                            other = cond_other_value(c, site_conds.get(key, ()), getattr(site_conds, "per_path", {}).get(key, ()))
+                            missing.append((rf, "the table is applied there without the dispatch condition %r%s"
+                                            % (c, (" (it is applied when that field %s)" % other) if other else ""),
+                                            "contradicted" if other else "absent"))
             elif f[0] == "blob":
                 keys = [("blob", f[1], f[2], ex) for ex in f[3] if ("blob", f[1], f[2], ex) in found]
                 if not keys:
                     there = sorted(repr(x[2:]) for x in found if x[0] == "blob" and x[1] == f[1])
-                    missing.append((rf, "%r is %s" % (f[1], ("taken from " + "; ".join(there)) if there else "not reported as a byte string")))
+                    missing.append((rf, "%r is %s" % (f[1], ("taken from " + "; ".join(there)) if there else "not reported as a byte string"),
+                                    "contradicted" if there else "absent"))
                 else:
                     for c in f[4]:
                         if not any(cond_holds(c, site_conds.get(k, ())) for k in keys):
-                            missing.append((rf, "%r is taken from there without the condition %r" % (f[1], c)))
+                            other = [cond_other_value(c, site_conds.get(k, ()), getattr(site_conds, "per_path", {}).get(k, ())) for k in keys]
+                            missing.append((rf, "%r is taken from there without the condition %r" % (f[1], c),
+                                            "contradicted" if any(other) else "absent"))
             elif f[0] == "read":
                 if ("read", f[1], f[2]) not in reads:
-                    missing.append((rf, "that field is not read"))
+                    missing.append((rf, "that field is not read", "absent"))
             elif f[0] == "stride":
                 st = [x for x in found if x[0] == "stride" and x[1] == f[1]]
                 if f[2][0] == "atleast":
@@ -96,20 +141,43 @@ def match(reference, found, site_conds, reads, allowed):
                 else:
                     ok = any(norm_stride(s[2]) == norm_stride(f[2]) for s in st)
                 if not ok:
-                    missing.append((rf, "the loop advances by %s" % ([s[2] for s in st],)))
+                    missing.append((rf, "the loop advances by %s" % ([s[2] for s in st],), "contradicted" if st else "absent"))
                 for s in st:
                     if norm_stride(s[2]) != norm_stride(f[2]) and f[2][0] != "atleast" \
                             and norm_stride(s[2]) not in [norm_stride(a) for a in allowed]:
-                        missing.append((rf, "a path advances the loop by %r" % (s[2],)))
+                        missing.append((rf, "a path advances the loop by %r" % (s[2],), "contradicted"))
             elif f[0] == "window":
                 if f not in found:
                     ws = [x for x in found if x[0] == "window" and x[1] == f[1]]
-                    missing.append((rf, "the loop walks %s" % (ws,)))
+                    missing.append((rf, "the loop walks %s" % (ws,), "contradicted" if ws else "absent"))
         if best is None or len(missing) < len(best[0]):
             best = (missing, m)
         if not missing:
             break
     return best
+
+
+def rename_tables(prog, facts):
+    """the reference names a table module:Class.attr; the library may keep that table elsewhere now (another module, a base
+    class): site facts name it the way the decoder run sees it"""
+    memo = getattr(prog, "_c04_table_names", None)
+    if memo is None:
+        memo = prog._c04_table_names = {}
+    out = []
+    for f in facts:
+        if f and f[0] == "site" and isinstance(f[1], str) and ":" in f[1]:
+            if f[1] not in memo:
+                actual = f[1]
+                try:
+                    fields = (reft.TABLES.get(f[1]) or {}).get("fields")
+                    t, _file, _line = resolve_table(prog, f[1], list(fields) if fields else None)
+                    actual = prog.I.origin_of.get(id(t), f[1])
+                except AnalysisError:
+                    pass
+                memo[f[1]] = actual
+            f = (f[0], memo[f[1]]) + tuple(f[2:])
+        out.append(f)
+    return out
 
 
 def loops_in(f):
@@ -163,9 +231,8 @@ def extraction_gaps(dps):
             if l["exit"] in ("raise", "return", "break"):
                 continue
             it = l["raw"].get("iterable")
-            if not l["vars"] and not isinstance(it, View) and not (isinstance(it, list)):
-                if l["test"] is not None or getattr(it, "range_args", None) is not None:
-                    out.append("the loop at %s has no walked buffer and stride the analysis recognises" % l["where"])
+            if not l["vars"] and not isinstance(it, View):
+                out.append("the loop at %s has no walked buffer and stride the analysis recognises" % l["where"])
         for kind in ("sites", "reads", "blobs"):
             for s in getattr(dp, kind):
                 if "'?'" in repr(s.get("pos")) or "not-a-view" in repr(s.get("pos")) or "unknown" in repr(s.get("len")):
@@ -248,20 +315,28 @@ def check(prog, run):
             for r in dp.reads:
                 if r["len"] is not None:
                     reads.add(("read", simplify(canon_pos(r["pos"], order2)), r["len"]))
-        missing, m = match(spec["facts"], facts, site_conds, reads, spec["allowed"])
+        missing, m = match(rename_tables(prog, spec["facts"]), facts, site_conds, reads, spec["allowed"])
         if missing:
             gaps = extraction_gaps(dps)
+            if not gaps and any(rf[0] in ("window", "stride") for rf, _, _k in missing) and not any(l["vars"] for dp in dps for l in dp.loops):
+                gaps = ["no loop of the decoder was recognised as a walk over the buffer (a comprehension or generator over "
+                        "computed positions?)"]
             if gaps:
                 # the decoder walks its buffer in a way the fact extraction does not follow (its loops or positions came out
                 # without a normal form): what is "missing" may simply not have been seen.  Undecided, not a violation.
                 undecided_shapes.append("%s: %s" % (c, "; ".join(gaps[:3])))
                 continue
         miss_keys = set()
-        for rf, why in missing:
+        for rf, why, kind in missing:
             key = repr(rf)
             if key in miss_keys:
                 continue
             miss_keys.add(key)
+            if kind == "absent":
+                # nothing comparable was extracted from the decoder: that may be the decoder's fault or the extraction's (a
+                # spelling it does not normalise) -- not decided here; the behavioural rules below and C06 see real omissions
+                undecided_shapes.append("%s: %s -- %s" % (c, describe_fact(rf), why))
+                continue
             run.violation("response-structure", "%s %s" % (c, describe_fact(rf)),
                           "the standard requires %s; %s" % (describe_fact(rf), why), file, f.node.lineno, f.qualname,
                           facts={"reference": repr(rf), "found": sorted(repr(x) for x in facts if x[0] == rf[0])[:12]})
